@@ -141,6 +141,22 @@ class RunModel(Analysis):
     def registry_cover(self, x):
         """[j.<registry> for j in self.jobs if <only drops never-started or finished>]"""
         r = self.roles
+        if x[0] == 'union' and len(x[1]) == 1 and tuple(x[1])[0][0] == 'comp':
+            x = tuple(x[1])[0]
+        if x[0] == 'union' and len(x[1]) == 1:
+            # tasks = []; for j in self.jobs: if j.<registry> is not None: tasks.append(j.<registry>)
+            (it,) = tuple(x[1])
+            if it[0] == 'when' and not it[2] and it[3][0] == 'single':
+                v = it[3][1]
+                if T.is_attr(v, r.registry_attr) and v[1][0] == 'elem' and v[1][1] == T.mk(('attr', T.SELF, 'jobs')):
+                    elem = v[1]
+                    reg = v
+                    okc = {(reg, True), (T.mk(('cmp', 'is not', reg, T.NONE)), True), (T.mk(('cmp', 'is', reg, T.NONE)), False),
+                           (T.mk(('mcall', elem, 'is_scheduled', (), ())), True), (T.mk(('mcall', elem, 'is_idle', (), ())), False),
+                           (T.mk(('mcall', elem, 'is_done', (), ())), False), (T.mk(('mcall', reg, 'done', (), ())), False)}
+                    return all(c in okc for c in it[1])
+            if it[0] == 'single':
+                return False
         x = x if x[0] == 'comp' else None
         if x is None or len(x[3]) != 1:
             return False
@@ -246,7 +262,15 @@ class RunModel(Analysis):
         if t[0] == 'coro':
             b = dict(t[2])
             if t[1] == r.WRAP.qualname:
-                return 'run', b.get(r.wrap_jobvar), b.get('self')
+                w = b.get('self')
+                if w is None:
+                    # the closure may capture a local derived from the window (its queue ...)
+                    wn = r.window_cls.name
+                    for v in b.values():
+                        for s_ in T.subterms(v):
+                            if len(s_) == 4 and s_[0] == 'new' and s_[1] == wn:
+                                w = s_
+                return 'run', b.get(r.wrap_jobvar), w
             f = self.prog.funcs.get(t[1])
             if f is not None and f.name == 'co_run':
                 return 'bare', b.get(f.params[0]) if f.params else None, None
@@ -329,6 +353,10 @@ class RunModel(Analysis):
         return st.set(cit=cit | frozenset([k]), cf=cf - frozenset([k]), cfbad=bad)
 
     def on_loop_exit(self, ip, ctx, st, fr):
+        if ctx.kind == 'for' and ctx.zero_iterations and ctx.iter == T.mk(('attr', T.SELF, 'jobs')) \
+                and st.a('nstart', 0) and not ip.in_summary:
+            # tasks were created from members of this scheduler: its member set is not empty
+            return None
         if ctx.kind != 'for' or not self._cancel_loop(ctx):
             return st
         k = ctx.key
@@ -525,6 +553,13 @@ class RunModel(Analysis):
         if st.a('cause') is None:
             y = y.set(cause=self.cause_of(st))
         y = y.set(phase='Shut' if phase == 'Tidied' else phase, susp=True, shut_done=True)
+        # what the broadcast (and what it calls) stores is no longer known here
+        sig = self.sigs.get(self.roles.BROADCAST.qualname)
+        if sig is not None:
+            if self.roles.timeout_flag in sig.stores and st.a('tf') is not None:
+                y = y.set(tf='overwritten by the shutdown broadcast')
+            if self.roles.critical_flag in sig.stores and st.a('cf_flag') is not None:
+                y = y.set(cf_flag='overwritten by the shutdown broadcast')
         y = y.note(ip.where(node, fr), "shutdown broadcast awaited")
         out.append((y, T.mk(('shutresult',)), None))
         return out
@@ -533,7 +568,7 @@ class RunModel(Analysis):
     def on_branch(self, ip, node, term, val, st, fr):
         while term[:2] == ('unop', 'not'):
             term, val = term[2], not val
-        if term[0] == 'cmp' and term[1] in ('==', '>=', '<=', '!=', '<', '>') and fr.depth == 0 \
+        if term[0] == 'cmp' and term[1] in ('==', '>=', '<=', '!=', '<', '>') \
                 and (term[2][0] == 'acc' or term[3][0] == 'acc'):
             self.ev(ip, 'COUNTCMP', node, st, fr, term=term, val=val)
             if val:
@@ -542,6 +577,8 @@ class RunModel(Analysis):
                 and not ip.in_summary and term[1] == T.mk(('var', self.roles.wrap_jobvar)):
             # criticality of a job is configuration: what a branch learnt stays true
             st = st.set(crit=(term, val))
+        if term == T.mk(('attr', T.SELF, 'jobs')) and not val and st.a('phase', 'NoTasks') == 'NoTasks':
+            st = st.set(no_members=True)
         g = self.roles.guard_attr
         if g and term == T.mk(('attr', T.SELF, g)) and not val:
             st = st.set(gtested=True)
@@ -608,8 +645,10 @@ class RunModel(Analysis):
         return None
 
     def on_store_name(self, ip, node, name, val, st, fr):
-        if isinstance(node, ast.AugAssign) and fr.depth == 0:
+        if isinstance(node, ast.AugAssign):
             self.ev(ip, 'AUG', node, st, fr, name=name, val=val)
+            if ip.in_summary:
+                return None
             return st.with_var(fr.fid, name, val).set(incs=min(3, st.a('incs', 0) + 1))
         return None
 
@@ -618,6 +657,7 @@ class RunModel(Analysis):
             st = st.set(cause=self.cause_of(st))
         self.ev(ip, 'RET', node, st, fr, val=val, phase=st.a('phase', 'NoTasks'), cause=st.a('cause'),
                 shut_tidied=st.a('shut_tidied', False), gset=st.a('gset'), spawned_shut=st.a('nshut', 0),
+                no_members=st.a('no_members', False),
                 tf=st.a('tf'), cf=st.a('cf_flag'),
                 live=st.a('live', frozenset()), shut_live=st.a('shut_live', frozenset()),
                 slot=st.a('slot', 'Free'))
